@@ -2,7 +2,7 @@ use crate::utils::{AttrParams, DeriveType, State};
 use convert_case::{Case, Casing};
 use proc_macro2::TokenStream;
 use quote::{format_ident, quote};
-use syn::{DeriveInput, Fields, Ident, Result, Type};
+use syn::{ext::IdentExt as _, DeriveInput, Fields, Ident, Result, Type};
 
 pub fn expand(input: &DeriveInput, trait_name: &'static str) -> Result<TokenStream> {
     let state = State::with_attr_params(
@@ -33,17 +33,17 @@ pub fn expand(input: &DeriveInput, trait_name: &'static str) -> Result<TokenStre
         let variant = variant_state.variant.unwrap();
         let fn_name = format_ident!(
             "try_unwrap_{ident}",
-            ident = variant.ident.to_string().to_case(Case::Snake),
+            ident = variant.ident.unraw().to_string().to_case(Case::Snake),
             span = variant.ident.span(),
         );
         let ref_fn_name = format_ident!(
             "try_unwrap_{ident}_ref",
-            ident = variant.ident.to_string().to_case(Case::Snake),
+            ident = variant.ident.unraw().to_string().to_case(Case::Snake),
             span = variant.ident.span(),
         );
         let mut_fn_name = format_ident!(
             "try_unwrap_{ident}_mut",
-            ident = variant.ident.to_string().to_case(Case::Snake),
+            ident = variant.ident.unraw().to_string().to_case(Case::Snake),
             span = variant.ident.span(),
         );
         let variant_ident = &variant.ident;
